@@ -29,7 +29,7 @@ def run(ctx):
     evp = ctx.path("build.ev")
     ctx.harness(h, ["build-events", "--in", sp, "--out", evp])
     mism, _, n = ctx.validate(evp, chunk=3000)
-    for e in core.read_ndjson(evp):
+    for e in core.iter_ndjson(evp):
         ctx.nontrivial.add(json.dumps(e["shape"], sort_keys=True))
         if len(ctx.samples) < 5 and len(ctx.nontrivial) % 211 == 3:
             ctx.sample({"shape": e["shape"], "printed": core.uncps(e["r"][0]["text"])})
